@@ -1124,7 +1124,8 @@ def snap_diff(a, b, name=True, attribs=True):
             return f"bond {i}: {x} / {y}"
     if a["charge"] != b["charge"] or a["mult"] != b["mult"]:
         return f"charge, multiplicity {a['charge']}, {a['mult']} / {b['charge']}, {b['mult']}"
-    if a["coords"].shape != b["coords"].shape or not np_().array_equal(a["coords"], b["coords"]):
+    # (NaN rows -- hydrogens placed on a degenerate drawing -- are the same rows when they are NaN on both sides)
+    if a["coords"].shape != b["coords"].shape or not np_().array_equal(a["coords"], b["coords"], equal_nan=True):
         dv = float(np_().max(np_().abs(a["coords"] - b["coords"]))) if a["coords"].shape == b["coords"].shape else float("nan")
         return f"coordinates differ (max deviation {dv:.4f})"
     if name and a["name"] != b["name"]:
